@@ -694,8 +694,8 @@ def _grouped(ctx, repo):
         # a reset must be followed by a rebuild loop over the members in the same method (pop / __setitem__) unless the list is reset too
         resets = [x for x in walk_no_nested(fn) if isinstance(x, ast.Assign) and ast.unparse(x) == "self._data = b''"]
         if resets and mname not in ("cleanup", "__init__"):
-            src = ast.unparse(fn)
-            okr = "for avp in self.avps" in src and "self._data += avp.dump()" in src
+            from ..astutil import rebuilds_from_members
+            okr = rebuilds_from_members(fn)
             ctx.decide(okr, "R-CONSERVE/grouped-data", f"{g.qual}.{mname}", g.where(resets[0]),
                        "reset is followed by a rebuild from the listed members", "the Grouped data is reset without being rebuilt",
                        key=f"rebuild:{mname}")
@@ -703,8 +703,8 @@ def _grouped(ctx, repo):
     # removal re-derives the buffer
     gp = g.methods.get("pop")
     if gp is not None:
-        src = ast.unparse(gp)
-        ctx.decide("self._data = b''" in src and "self._data += avp.dump()" in src, "R-CONSERVE/grouped-data", f"{g.qual}.pop", g.where(gp),
+        from ..astutil import rebuilds_from_members
+        ctx.decide(rebuilds_from_members(gp), "R-CONSERVE/grouped-data", f"{g.qual}.pop", g.where(gp),
                    "pop rebuilds the data from the remaining members",
                    "GroupedType.pop does not rebuild `_data` from the remaining members: the data keeps (part of) the removed member",
                    key="pop_rebuild")
